@@ -360,7 +360,8 @@ def check_C12(chk):
 
 # ------------------------------------------------------------------ C09
 def run_vanish(binp, S, cases):
-    lines = ["id=%d scen=%s len=%d natt=%d proc=%d" % (c["id"], c["scen"], c["len"], c.get("natt", 0), c.get("proc", 0)) for c in cases]
+    lines = ["id=%d scen=%s len=%d natt=%d proc=%d%s" % (c["id"], c["scen"], c["len"], c.get("natt", 0), c.get("proc", 0),
+                                                       (" rounds=%d" % c["rounds"]) if c.get("rounds") else "") for c in cases]
     env = {"VSHIM_SNDBUF": S} if S else {}
     recs, trace, rc, err = C.run_harness(binp, "vanish", lines, env_extra=env, timeout=600)
     by = {r["id"]: r for r in recs if r.get("kind") == "vanish"}
@@ -393,6 +394,12 @@ def vanish_oracle(it):
             return "unexpected result %s" % s
         if sc == "carrier" and (o["carrier"] != "Ok" or o["before"] != "Ok"):
             return "send to a receiver in transit failed (%s / %s)" % (o["carrier"], o["before"])
+    elif sc == "drainkill":
+        if o["signals"]:
+            return ("a multi-fragment send whose receiver was killed while reading terminated the sending process with signal %s in %d of %d rounds "
+                    "(SIGPIPE at its default disposition)" % (o["signals"][0], len(o["signals"]), o["rounds"]))
+        if o["hangs"]:
+            return "a multi-fragment send whose receiver was killed while reading blocked for ever in %d of %d rounds" % (o["hangs"], o["rounds"])
     elif sc == "transit":
         if any(x != "Ok" for x in o["sends"]):
             return "send to a receiving end that is merely in transit failed: %s" % o["sends"]
@@ -430,6 +437,7 @@ def check_C09(chk):
         for proc in (0, 1):
             during.append({"id": next(nid), "scen": "during", "len": L, "proc": proc})
     during.append({"id": next(nid), "scen": "carrier", "len": 4 << 20})
+    during.append({"id": next(nid), "scen": "drainkill", "len": 32 << 20, "rounds": 200 if thorough else 40})
     jobs.append((None, during))
     with concurrent.futures.ThreadPoolExecutor(max_workers=4) as ex:
         items = [it for r in ex.map(lambda j: run_vanish(bins["default"], j[0], j[1]), jobs) for it in r]
